@@ -61,3 +61,37 @@ Print Assumptions C20_locus_py_guards_are_the_model.
 Print Assumptions C20_locus_py_rejects_invalid_configurations.
 Print Assumptions C20_locus_py_accepts_valid_configurations.
 Print Assumptions C20_locus_py_more_than_two_loci_not_implemented.
+
+(* ---- the SOURCE of the argument guards at the entry points (translated on every run by translate/guards2coq.py into gen/GuardsGen.v:
+   conditions, exception kinds and ORDER, with the values returned before a later guard) is the model's `outcome` ---- *)
+From PG Require Import gen.GuardsGen proofs.GenGuardsEquiv.
+Theorem C20_distributions_py_construct_times_guards_are_the_model : forall st en,
+  TreeHeightDistribution_init_verdict st en = outcome (RConstructTimes st en).
+Proof. exact gen_construct_times_eq. Qed.
+Theorem C20_distributions_py_mutation_config_guards_are_the_model : forall ne len expected theta,
+  SFSDistribution_get_mutation_config_verdict ne len expected theta = outcome (RMutationConfig len expected theta ne).
+Proof. exact gen_mutation_config_eq. Qed.
+Theorem C20_distributions_py_mutation_config_rejects : forall ne len expected theta,
+  ~ ((ne <= 1)%nat /\ (0 <= theta)%Q /\ len = expected) -> SFSDistribution_get_mutation_config_verdict ne len expected theta <> Ok.
+Proof. exact source_mutation_config_rejects. Qed.
+Theorem C20_distributions_py_reward_count_guard_is_the_model : forall k nr,
+  PhaseTypeDistribution_accumulate_verdict k nr = outcome (RRewardCount k nr).
+Proof. exact gen_reward_count_eq. Qed.
+Theorem C20_distributions_py_quantile_guards : forall q ef,
+  ((1 < ef)%Q -> TreeHeightDistribution_quantile_verdict q ef = outcome (RQuantile q)) /\
+  ((ef <= 1)%Q -> TreeHeightDistribution_quantile_verdict q ef = ValueErr).
+Proof. intros q ef. split; [apply gen_quantile_eq | apply gen_quantile_expansion_factor]. Qed.
+Theorem C20_distributions_py_negative_times_rejected_elementwise : forall ts,
+  (TreeHeightDistribution_cdf_verdict true ts = ValueErr <-> exists t, In t ts /\ outcome (RCdfTime t) = ValueErr) /\
+  (PhaseTypeDistribution__accumulate_verdict ts = ValueErr <-> exists t, In t ts /\ outcome (RAccumulateTime t) = ValueErr).
+Proof. intros ts. split; [apply gen_cdf_times_eq | apply gen_accumulate_times_eq]. Qed.
+Theorem C20_state_space_py_guards_are_the_model : forall (n : Z) r,
+  BlockCountingStateSpace_init_verdict (Some n) = outcome (RSfsTwoLoci n) /\ Transition_recombine_verdict 2 r = outcome (RRecombinationKeyword r).
+Proof. intros n r. split; [apply gen_sfs_two_loci_eq | apply gen_recombine_eq]. Qed.
+Print Assumptions C20_distributions_py_construct_times_guards_are_the_model.
+Print Assumptions C20_distributions_py_mutation_config_guards_are_the_model.
+Print Assumptions C20_distributions_py_mutation_config_rejects.
+Print Assumptions C20_distributions_py_reward_count_guard_is_the_model.
+Print Assumptions C20_distributions_py_quantile_guards.
+Print Assumptions C20_distributions_py_negative_times_rejected_elementwise.
+Print Assumptions C20_state_space_py_guards_are_the_model.
